@@ -23,7 +23,7 @@ Proof. eexists; eexists; repeat split; vm_compute; reflexivity. Qed.
 
 (* ---- structure writers: everything the schema interpreter emits is well-formed TTLV ---- *)
 From PK Require Import Codec.Schema Codec.SchemaProofs.
-Theorem c02_wr_wf : forall E v, env_ok E = true ->
+Theorem c02_wr_wf : forall E v, env_ok E = true -> In v VERSIONS ->
   forall fuel tag k x bs, tag_ok tag = true -> wfv E v fuel k x = true ->
   wr E v fuel tag k x = Some bs -> wf_item bs.
 Proof. exact wr_wf. Qed.
